@@ -2,11 +2,14 @@ package c16
 
 import (
 	"bufio"
+	"crypto/tls"
 	"io"
 	"sync"
 	"testing"
 	"testing/synctest"
 	"time"
+
+	"verif/internal/tlsx"
 
 	"github.com/database64128/shadowsocks-go/httpproxy"
 	"github.com/database64128/shadowsocks-go/netio"
@@ -39,7 +42,20 @@ type obs struct {
 
 	Got100       map[int]bool // request index -> an interim response had arrived before the body was sent
 	ExpectWaited int
-	Stuck        bool // the watchdog had to tear the case down
+
+	// timing (virtual time since the start of the case)
+	ClientAt     []time.Duration       // parallel to ClientMsgs: when the message had completely arrived at the client
+	ReqWrittenAt map[int]time.Duration // request index -> when the client had written the whole request
+	FinalStartAt map[int]time.Duration // origin ordinal -> when the origin started writing the final response (only for delayed ones)
+	// strict Expect: request index -> the client had read "100 Continue" for it before it sent the body
+	StrictWaited map[int]bool
+	StrictGot    map[int]bool
+	StrictWait   map[int]time.Duration
+
+	// TLS
+	HandshakeErr string // the harness client's TLS handshake failed
+	ClientEndErr string // TLS only: error (other than EOF) that ended the client's stream between two messages
+	Stuck        bool   // the watchdog had to tear the case down
 	ClientWrote  int
 }
 
@@ -65,6 +81,7 @@ type progress struct {
 	mu      sync.Mutex
 	finals  int
 	interim map[int]bool
+	cont100 map[int]bool // "100 Continue" specifically
 	done    bool
 	changed chan struct{}
 }
@@ -164,6 +181,15 @@ func newServer(p *plan) netio.StreamServer {
 			cfg.Users = []httpproxy.ServerUserCredentials{}
 		}
 	}
+	if p.TLS {
+		m := tlsMaterial()
+		cfg.EnableTLS = true
+		cfg.Certificates = []tls.Certificate{m.server.TLS}
+		if p.ClientCert != certNone {
+			cfg.RequireAndVerifyClientCert = true
+			cfg.ClientCAs = m.ca.Pool()
+		}
+	}
 	s, err := cfg.NewProxyServer()
 	if err != nil {
 		panic(err)
@@ -171,21 +197,102 @@ func newServer(p *plan) netio.StreamServer {
 	return s
 }
 
+// ---- throw-away TLS material (verif/internal/tlsx). It is created once, inside a synctest
+// bubble of its own: every bubble's clock starts at 2000-01-01, the server side verifies client
+// certificates against time.Now() (httpproxy builds its tls.Config without a Time hook), so the
+// certificates have to be valid around 2000-01-01 and not around the real date.
+type tlsMat struct {
+	ca, otherCA             *tlsx.CA
+	server, client, unknown *tlsx.Leaf
+}
+
+const (
+	tlsServerName = "proxy.c16.test"
+	tlsClientCN   = "cert-user"
+)
+
+var (
+	tlsMatOnce sync.Once
+	tlsMatVal  *tlsMat
+	tlsMatT    *testing.T
+)
+
+func tlsMaterial() *tlsMat {
+	tlsMatOnce.Do(func() {
+		synctest.Test(tlsMatT, func(*testing.T) {
+			must := func(err error) {
+				if err != nil {
+					panic("harness: tls material: " + err.Error())
+				}
+			}
+			m := &tlsMat{}
+			var err error
+			m.ca, err = tlsx.NewCA("c16 proxy CA")
+			must(err)
+			m.otherCA, err = tlsx.NewCA("c16 unrelated CA")
+			must(err)
+			m.server, err = m.ca.Issue("proxy", tlsServerName)
+			must(err)
+			m.client, err = m.ca.Issue(tlsClientCN)
+			must(err)
+			m.unknown, err = m.otherCA.Issue("mallory")
+			must(err)
+			tlsMatVal = m
+		})
+	})
+	return tlsMatVal
+}
+
+func tlsCap(c int) int {
+	if c > 0 && c < 4096 {
+		return 4096
+	}
+	return c
+}
+
+func clientTLSConfig(p *plan) *tls.Config {
+	m := tlsMaterial()
+	cfg := &tls.Config{RootCAs: m.ca.Pool(), ServerName: tlsServerName}
+	switch p.ClientCert {
+	case certValid:
+		cfg.Certificates = []tls.Certificate{m.client.TLS}
+	case certUntrusted:
+		// GetClientCertificate: present it even though the server's CA list does not name its issuer
+		c := m.unknown.TLS
+		cfg.GetClientCertificate = func(*tls.CertificateRequestInfo) (*tls.Certificate, error) { return &c, nil }
+	}
+	return cfg
+}
+
 // execute runs the plan against the real server inside a synctest bubble and returns what the
 // client and the origin saw. It never fails the test itself.
 func execute(t *testing.T, p *plan) *obs {
-	o := &obs{Got100: map[int]bool{}}
+	o := &obs{Got100: map[int]bool{}, ReqWrittenAt: map[int]time.Duration{}, FinalStartAt: map[int]time.Duration{},
+		StrictWaited: map[int]bool{}, StrictGot: map[int]bool{}, StrictWait: map[int]time.Duration{}}
+	if p.TLS {
+		tlsMatT = t
+		tlsMaterial() // outside the case's bubble
+	}
 	synctest.Test(t, func(t *testing.T) {
 		var mu sync.Mutex // guards o
 		t0 := time.Now()
 		server := newServer(p)
-		cc, sc := bpair(p.T.CapC2P, p.T.PlanC2P, p.T.CapP2C, nil)
+		capC2P, capP2C := p.T.CapC2P, p.T.CapP2C
+		if p.TLS {
+			// crypto/tls writes its alerts and its last handshake flight without a deadline and counts
+			// on a transport that takes a few hundred bytes without the peer reading (any kernel socket
+			// buffer does); a 1-byte buffer in both directions deadlocks the two TLS stacks against each
+			// other when the server rejects the client certificate. Tiny buffers stay a matter of the
+			// plain cases and of the upstream side; reads are still fragmented by the read plan.
+			capC2P, capP2C = tlsCap(capC2P), tlsCap(capP2C)
+		}
+		cc, sc := bpair(capC2P, p.T.PlanC2P, capP2C, nil)
 		var (
 			wg        sync.WaitGroup
 			originsMu sync.Mutex
 			origins   []*bconn
 		)
-		prog := &progress{interim: map[int]bool{}, changed: make(chan struct{})}
+		prog := &progress{interim: map[int]bool{}, cont100: map[int]bool{}, changed: make(chan struct{})}
 
 		// ---- the relay service around the stream server (what service/tcp.go does)
 		wg.Go(func() {
@@ -220,117 +327,176 @@ func execute(t *testing.T, p *plan) *obs {
 			oc.Close()
 		})
 
-		// ---- client reader
-		wg.Go(func() {
-			br := bufio.NewReaderSize(recReader{cc, &o.ClientRaw, &mu}, 4096)
-			cur := 0
-			for {
-				m, err := readHead(br, true)
-				if err != nil {
-					mu.Lock()
-					if err != io.EOF {
-						o.ClientTail, o.ClientTailErr = m, err.Error()
-					}
-					mu.Unlock()
-					break
-				}
-				method := ""
-				if cur < len(p.Reqs) {
-					method = p.Reqs[cur].Method
-				}
-				if proxyGenerated(m) {
-					// 200/400/407/502 written by the proxy itself carry no framing fields and no body
-					m.Framing = bodyNone
-				} else if err = readBody(br, m, true, method); err != nil {
-					mu.Lock()
-					o.ClientTail, o.ClientTailErr = m, err.Error()
-					mu.Unlock()
-					break
-				}
-				mu.Lock()
-				o.ClientMsgs = append(o.ClientMsgs, m)
-				mu.Unlock()
-				if m.Status/100 == 1 {
-					c := cur
-					prog.update(func() { prog.interim[c] = true })
-				} else {
-					cur++
-					prog.update(func() { prog.finals++ })
-				}
-			}
-			mu.Lock()
-			o.ClientEOF = true
-			o.ClientEOFAt = time.Since(t0)
-			mu.Unlock()
-			prog.update(func() { prog.done = true })
-		})
-
-		// ---- client writer
-		wg.Go(func() {
-			fw := &fragWriter{w: cc, sizes: p.T.WriteC, limit: p.ClientAbort}
-			defer func() {
-				mu.Lock()
-				o.ClientWrote = fw.total
-				mu.Unlock()
-			}()
-			for i := range p.Reqs {
-				r := &p.Reqs[i]
-				if p.IdleAt > 0 && i == p.IdleAt {
-					// idle phase: nothing outstanding, nothing sent for idlePause
-					prog.waitFor(func() bool { return prog.finals >= i }, 0)
-					time.Sleep(idlePause)
-					prog.mu.Lock()
-					eof := prog.done
-					prog.mu.Unlock()
-					mu.Lock()
-					o.IdleReached, o.EOFAtResume = true, eof
-					mu.Unlock()
-					// a client that has not noticed anything sends its next request now
-					before := fw.total
-					head, body := r.wire()
-					if _, err := fw.write(head); err == nil {
-						fw.write(body)
-					}
-					mu.Lock()
-					o.WroteAfterIdle = fw.total - before
-					mu.Unlock()
-					continue
-				}
-				need := i + 1 - p.Window
-				if need > 0 && !prog.waitFor(func() bool { return prog.finals >= need }, 0) {
-					// the connection ended while requests were outstanding
-					cc.Close()
-					return
-				}
-				head, body := r.wire()
-				aborted, err := fw.write(head)
-				if err == nil && !aborted && len(body) > 0 {
-					if r.Expect {
-						got := prog.waitFor(func() bool { return prog.interim[i] || prog.finals > i }, time.Second)
+		// ---- client: plain, or crypto/tls over the same transport
+		var (
+			cr         io.Reader    = cc
+			cw         io.Writer    = cc
+			closeWrite func() error = cc.CloseWrite
+		)
+		startClient := func() {
+			// ---- client reader
+			wg.Go(func() {
+				br := bufio.NewReaderSize(recReader{cr, &o.ClientRaw, &mu}, 4096)
+				cur := 0
+				for {
+					m, err := readHead(br, true)
+					if err != nil {
 						mu.Lock()
-						o.ExpectWaited++
-						if got {
-							o.Got100[i] = true
+						switch {
+						case err == io.EOF:
+						case p.TLS && m == nil:
+							// between two messages: the TLS layer reports how the stream ended (alert,
+							// missing close_notify); for HTTP it is the end of the connection
+							o.ClientEndErr = err.Error()
+						default:
+							o.ClientTail, o.ClientTailErr = m, err.Error()
 						}
 						mu.Unlock()
+						break
 					}
-					aborted, err = fw.write(body)
+					method := ""
+					if cur < len(p.Reqs) {
+						method = p.Reqs[cur].Method
+					}
+					if proxyGenerated(m) {
+						// 200/400/407/502 written by the proxy itself carry no framing fields and no body
+						m.Framing = bodyNone
+					} else if err = readBody(br, m, true, method); err != nil {
+						mu.Lock()
+						o.ClientTail, o.ClientTailErr = m, err.Error()
+						mu.Unlock()
+						break
+					}
+					mu.Lock()
+					o.ClientMsgs = append(o.ClientMsgs, m)
+					o.ClientAt = append(o.ClientAt, time.Since(t0))
+					mu.Unlock()
+					if m.Status/100 == 1 {
+						c := cur
+						st := m.Status
+						prog.update(func() {
+							prog.interim[c] = true
+							if st == 100 {
+								prog.cont100[c] = true
+							}
+						})
+					} else {
+						cur++
+						prog.update(func() { prog.finals++ })
+					}
 				}
-				if aborted {
+				mu.Lock()
+				o.ClientEOF = true
+				o.ClientEOFAt = time.Since(t0)
+				mu.Unlock()
+				prog.update(func() { prog.done = true })
+			})
+
+			// ---- client writer
+			wg.Go(func() {
+				fw := &fragWriter{w: cw, sizes: p.T.WriteC, limit: p.ClientAbort}
+				defer func() {
+					mu.Lock()
+					o.ClientWrote = fw.total
+					mu.Unlock()
+				}()
+				for i := range p.Reqs {
+					r := &p.Reqs[i]
+					if p.IdleAt > 0 && i == p.IdleAt {
+						// idle phase: nothing outstanding, nothing sent for idlePause
+						prog.waitFor(func() bool { return prog.finals >= i }, 0)
+						time.Sleep(idlePause)
+						prog.mu.Lock()
+						eof := prog.done
+						prog.mu.Unlock()
+						mu.Lock()
+						o.IdleReached, o.EOFAtResume = true, eof
+						mu.Unlock()
+						// a client that has not noticed anything sends its next request now
+						before := fw.total
+						head, body := r.wire()
+						if _, err := fw.write(head); err == nil {
+							fw.write(body)
+						}
+						mu.Lock()
+						o.WroteAfterIdle = fw.total - before
+						mu.Unlock()
+						continue
+					}
+					need := i + 1 - p.Window
+					if need > 0 && !prog.waitFor(func() bool { return prog.finals >= need }, 0) {
+						// the connection ended while requests were outstanding
+						cc.Close()
+						return
+					}
+					head, body := r.wire()
+					aborted, err := fw.write(head)
+					if err == nil && !aborted && len(body) > 0 {
+						if r.Expect && r.ExpectStrict {
+							// withhold the body until "100 Continue" (or a final response) has been read;
+							// only the end of the connection ends the wait
+							start := time.Now()
+							got := prog.waitFor(func() bool { return prog.cont100[i] || prog.finals > i }, 0)
+							prog.mu.Lock()
+							got100 := prog.cont100[i]
+							prog.mu.Unlock()
+							mu.Lock()
+							o.ExpectWaited++
+							o.StrictWaited[i], o.StrictGot[i], o.StrictWait[i] = true, got100, time.Since(start)
+							if got {
+								o.Got100[i] = true
+							}
+							mu.Unlock()
+						} else if r.Expect {
+							got := prog.waitFor(func() bool { return prog.interim[i] || prog.finals > i }, time.Second)
+							mu.Lock()
+							o.ExpectWaited++
+							if got {
+								o.Got100[i] = true
+							}
+							mu.Unlock()
+						}
+						aborted, err = fw.write(body)
+					}
+					if err == nil && !aborted {
+						mu.Lock()
+						o.ReqWrittenAt[i] = time.Since(t0)
+						mu.Unlock()
+					}
+					if aborted {
+						cc.Close()
+						return
+					}
+					if err != nil {
+						// the proxy stopped reading: wait for the reader to finish, then close
+						prog.waitFor(func() bool { return false }, 0)
+						cc.Close()
+						return
+					}
+				}
+				closeWrite()
+				prog.waitFor(func() bool { return false }, 0)
+				cc.Close()
+			})
+		}
+		if p.TLS {
+			wg.Go(func() {
+				tc := tls.Client(cc, clientTLSConfig(p))
+				if err := tc.Handshake(); err != nil {
+					mu.Lock()
+					o.HandshakeErr = err.Error()
+					o.ClientEOF, o.ClientEOFAt = true, time.Since(t0)
+					mu.Unlock()
+					prog.update(func() { prog.done = true })
 					cc.Close()
 					return
 				}
-				if err != nil {
-					// the proxy stopped reading: wait for the reader to finish, then close
-					prog.waitFor(func() bool { return false }, 0)
-					cc.Close()
-					return
-				}
-			}
-			cc.CloseWrite()
-			prog.waitFor(func() bool { return false }, 0)
-			cc.Close()
-		})
+				cr, cw, closeWrite = tc, tc, tc.CloseWrite
+				startClient()
+			})
+		} else {
+			startClient()
+		}
 
 		done := make(chan struct{})
 		go func() { wg.Wait(); close(done) }()
@@ -421,6 +587,14 @@ func runOrigin(p *plan, o *obs, mu *sync.Mutex, bc *bconn, t0 time.Time) {
 				}
 			}
 		}
+		if d := rp.finalDelay(); d > 0 {
+			// the origin takes its time over the final response (shorter than its own idle timeout)
+			time.Sleep(d)
+			c.t.Reset(idle)
+			mu.Lock()
+			o.FinalStartAt[k] = time.Since(t0)
+			mu.Unlock()
+		}
 		final := rp.finalWire(m.Method)
 		if tp := rp.truncPoint(m.Method); tp >= 0 {
 			fw.write(final[:tp])
@@ -436,6 +610,10 @@ func runOrigin(p *plan, o *obs, mu *sync.Mutex, bc *bconn, t0 time.Time) {
 }
 
 var defaultResp = &respPlan{Status: 200, Reason: "OK", Body: bodySpec{Kind: bodyCL, Seed: 99, Len: 2}, FrameName: "Content-Length", HeadCL: -1, TruncateAt: -1}
+
+func (p *respPlan) finalDelay() time.Duration {
+	return time.Duration(min(max(p.FinalDelaySec, 0), maxFinalDelaySec)) * time.Second
+}
 
 // closes reports whether the final response announces (or implies) the end of the connection.
 func (p *respPlan) closes(reqMethod string) bool {
